@@ -283,7 +283,7 @@ func (fx *FnCtx) basePath() *Path {
 		val := Val{T: n, Ty: fv.Type()}
 		p.vals[fv] = val
 		p.assumeWF(n, fv.Type())
-		p.assume(fmt.Sprintf("(and (not (= %s nil)) (= (ftag %s) 0))", n, n))
+		p.assume(fmt.Sprintf("(and (not (= %s nil)) (= (ftag %s) (- 5)))", n, n))
 	}
 	p.constGlobalFacts()
 	// distinct free-variable cells
@@ -324,7 +324,15 @@ func (p *Path) assumeClause(c *SpecCtx, cl Clause, what string) {
 
 func (p *Path) specError(what string, cl Clause, err error) {
 	msg := fmt.Sprintf("CONTRACT-STALE %s %s: %v (%s:%d)", p.fx.short, what, err, cl.File, cl.Line)
-	p.fx.errors = append(p.fx.errors, msg)
+	dup := false
+	for _, e := range p.fx.errors {
+		if e == msg {
+			dup = true
+		}
+	}
+	if !dup {
+		p.fx.errors = append(p.fx.errors, msg)
+	}
 	p.oblige("contract", sanitize(what), msg, "false")
 }
 
